@@ -80,6 +80,10 @@ def expand(block, tier):
                     if tgt == nd_["parent"]:
                         continue
                     yield {"f": fj, "feat": feat, "st": 0, "dev": None, "move": [nd_["i"], tgt]}
+                    # same move, but the target section already holds a question of the same name (element count unchanged)
+                    clash = [x["i"] for x in nodes if x["parent"] == tgt and x["kind"] == "q" and x["i"] != nd_["i"]]
+                    if clash and feat == 0:
+                        yield {"f": fj, "feat": feat, "st": 0, "dev": None, "move": [nd_["i"], tgt], "rename_to": clash[0]}
         return
     if block[0] == "default":
         for feat in range(6):
@@ -269,10 +273,22 @@ def check_api(case):
         if el is None or new_parent is None or not hasattr(new_parent, "add_child"):
             return {"outcome": "api-not-applicable", "nt": False, "viol": [], "tr": ntr}
         el.parent.children.remove(el)
+        if case.get("rename_to") is not None:
+            el.name = names[case["rename_to"]]
         new_parent.add_child(el)
         x2 = sv.to_xml(validate=False, pretty_print=False)
     except Exception as e:  # noqa: BLE001 - the object API may refuse the move (references, triggers): not a verdict
-        return {"outcome": "api-refused", "nt": False, "viol": [], "tr": ntr, "why": f"{type(e).__name__}: {e}"[:120]}
+        return {"outcome": "api-refused", "nt": case.get("rename_to") is not None, "viol": [], "tr": ntr, "why": f"{type(e).__name__}: {e}"[:120]}
+    if case.get("rename_to") is not None:
+        # two siblings now share a name: an XForm was produced although every path through them is ambiguous
+        try:
+            o2 = O.Obs(x2)
+            o2.paths  # (computes dup_siblings)
+            dups = o2.dup_siblings
+        except O.ParseFailure:
+            dups = ["unparseable"]
+        v = [("api-move:ambiguous-siblings-accepted-on-regeneration", str(dups)[:200])] if dups else []
+        return {"outcome": "api-ok", "nt": False, "viol": v, "tr": ntr}
     viol = []
     try:
         obs = O.Obs(x2)
